@@ -192,6 +192,51 @@ let run_disp toks =
     String.concat " " (List.rev !out)
   | _ -> "BADCASE"
 
+(* ---- parsing observations back, for the extracted predicates ---- *)
+let dobs_of_digest (d : string) : dobs =
+  let get key =
+    let parts = String.split_on_char ';' d in
+    let p = List.find (fun x -> String.length x > String.length key && String.sub x 0 (String.length key + 1) = key ^ "=") parts in
+    String.sub p (String.length key + 1) (String.length p - String.length key - 1) in
+  let lst v = if v = "-" then [] else String.split_on_char ',' v in
+  { ob_streams = List.map (fun t -> match String.split_on_char ':' t with
+        | [a; c; al] -> ({ k_addr = z_of_string a; k_conn = z_of_string c }, al = "1")
+        | _ -> failwith "disp_pred: bad stream") (lst (get "st"));
+    ob_syns = List.map (fun t -> match String.split_on_char ':' t with
+        | [a; c; q] -> { sy_addr = z_of_string a; sy_conn = z_of_string c; sy_seq = z_of_string q }
+        | _ -> failwith "disp_pred: bad syn") (lst (get "sy"));
+    ob_na = (get "na" = "1"); ob_ch = z_of_string (get "ch"); ob_ct = z_of_string (get "ct") }
+
+(* disp_pred <c12|c13> <max_streams> | <observations> *)
+let run_disp_pred toks =
+  match split_bar [] toks with
+  | ([which; max_streams], obs) ->
+    let parse tok =
+      match String.split_on_char '/' tok with
+      | [_res; sent; fwd; dg] ->
+        let rsts = if sent = "-" then 0 else
+            List.length (List.filter (fun t -> match String.split_on_char ':' t with
+                | _ :: "3" :: _ -> true | _ -> false) (String.split_on_char ',' sent)) in
+        let fw = if fwd = "-" then [] else List.map (fun t -> match String.split_on_char ':' t with
+            | [a; c] -> { k_addr = z_of_string a; k_conn = z_of_string c }
+            | _ -> failwith "disp_pred: bad fwd") (String.split_on_char ',' fwd) in
+        Some (rsts, fw, dobs_of_digest dg)
+      | _ -> None in
+    let rec go pre i = function
+      | [] -> "OK"
+      | tok :: rest ->
+        (match parse tok with
+         | None -> "OK"     (* PANIC / ARM-NOT-* tokens end the usable part of the trace *)
+         | Some (rsts, fw, post) ->
+           let o = { so_pre = pre; so_rsts = z_of_int rsts; so_fwd = fw; so_post = post } in
+           let ok = (if which = "c13" then c13_step_ok o else c12_step_ok (z_of_string max_streams) o) in
+           if ok then go post (i + 1) rest else Printf.sprintf "FAIL %s_step_ok step=%d" which i) in
+    (match obs with
+     | first :: rest -> (match parse first with Some (_, _, d0) -> go d0 0 rest | None -> "OK")
+     | [] -> "OK")
+  | _ -> failwith "disp_pred: bad case"
+
 let dispatch = function
+  | "disp_pred" :: r -> Some (run_disp_pred r)
   | "disp" :: r -> Some (run_disp r)
   | _ -> None
